@@ -466,4 +466,56 @@ theorem star_labels (n : Nat) (d : Mat) : Labels n (star n d) := by
     rw [hnode a ha] at hx
     simp [T.tips, T.depths] at hx
     omega
+/-! ### soundness of the computable certificate -/
+
+theorem cherryB_sound (d : Mat) (L i j : Nat) (h : cherryB d L i j = true) :
+    ∃ ai aj e, Cherry d L i j ai aj e := by
+  unfold cherryB at h
+  simp only [Bool.and_eq_true, Bool.or_eq_true, decide_eq_true_eq, List.all_eq_true, List.mem_range] at h
+  obtain ⟨⟨⟨⟨⟨hij, hi⟩, hj⟩, h0i⟩, h0j⟩, hall⟩ := h
+  refine ⟨_, _, newDist d i j, ⟨hij, hi, hj, h0i, h0j, by ring, ?_, ?_⟩⟩
+  · intro k hk hki hkj
+    rcases hall k hk with (h | h) | h
+    · exact absurd h hki
+    · exact absurd h hkj
+    · exact h.1
+  · intro k hk hki hkj
+    rcases hall k hk with (h | h) | h
+    · exact absurd h hki
+    · exact absurd h hkj
+    · exact h.2
+
+theorem njLoop_stop (sel : PT → Nat × Nat) (k : Nat) (pt : PT) (h : pt.L ≤ 3) : njLoop sel k pt = pt := by
+  cases k with
+  | zero => rfl
+  | succ k => unfold njLoop; rw [if_pos h]
+
+theorem njCheck_sound (sel : PT → Nat × Nat) (fuel : Nat) (pt : PT) (h : njCheck sel fuel pt = true) :
+    ∀ k, 3 < (njLoop sel k pt).L →
+      ∃ ai aj e, Cherry (njLoop sel k pt).d (njLoop sel k pt).L (sel (njLoop sel k pt)).1 (sel (njLoop sel k pt)).2 ai aj e := by
+  induction fuel generalizing pt with
+  | zero =>
+    intro k hk
+    have h3 : pt.L ≤ 3 := by simpa [njCheck] using h
+    rw [njLoop_stop sel k pt h3] at hk; omega
+  | succ fuel ih =>
+    intro k hk
+    by_cases h3 : pt.L ≤ 3
+    · rw [njLoop_stop sel k pt h3] at hk; omega
+    · unfold njCheck at h
+      rw [if_neg h3, Bool.and_eq_true] at h
+      cases k with
+      | zero => exact cherryB_sound _ _ _ _ h.1
+      | succ k =>
+        have : njLoop sel (k + 1) pt = njLoop sel k (join pt (sel pt).1 (sel pt).2) := by
+          conv_lhs => unfold njLoop
+          rw [if_neg h3]
+        rw [this] at hk ⊢
+        exact ih _ h.2 k hk
+
+theorem tri3B_sound (d : Mat) (h : tri3B d = true) : Tri3 d := by
+  unfold tri3B at h
+  simp only [Bool.and_eq_true, decide_eq_true_eq] at h
+  exact ⟨h.1.1, h.1.2, h.2⟩
+
 end CogentModel.NJ
